@@ -209,6 +209,9 @@ func (e *Engine) RenderTo(w io.Writer, name string, context map[string]interface
 
 // Load loads a template by name
 func (e *Engine) Load(name string) (*Template, error) {
+	// The cache entry this call observed (nil if none); see the cache update below
+	var seen *Template
+
 	// Only check the cache if caching is enabled
 	if e.environment.cache {
 		// Use a quick check under read lock first to avoid contention
@@ -218,6 +221,8 @@ func (e *Engine) Load(name string) (*Template, error) {
 
 		// If template exists in cache
 		if ok {
+			seen = tmpl
+
 			// If auto-reload is disabled, return the cached template immediately
 			if !e.autoReload {
 				return tmpl, nil
@@ -320,7 +325,12 @@ func (e *Engine) Load(name string) (*Template, error) {
 	// Only cache if caching is enabled
 	if e.environment.cache {
 		e.mu.Lock()
-		e.templates[name] = template
+		// If another goroutine registered or loaded this name while we were reading the
+		// loaders, its entry is newer than what we read: keep it instead of overwriting it
+		// (otherwise a RegisterString that already returned could be lost).
+		if current, exists := e.templates[name]; !exists || current == seen {
+			e.templates[name] = template
+		}
 		e.mu.Unlock()
 	}
 
